@@ -131,7 +131,6 @@ func AcceptedLength(regexString string) (AcceptedLengths, error) {
 			case syntax.InstAlt, syntax.InstAltMatch:
 				for _, s := range seen {
 					if s == pos {
-						cache[entry] = AcceptedLengths{math.MaxUint64, math.MaxUint64}
 						return AcceptedLengths{math.MaxUint64, math.MaxUint64}, nil
 					}
 				}
